@@ -1,7 +1,8 @@
 /-
-Model of `chess-engine/src/lib.rs` in its shipped configuration (`Engine::default()`:
-`positional = false`): `ThreeFold`, `BoardList`, `search_with`, `alphabeta`, `eval`,
-`eval_endgame`, `score_pieces`, `insuffient_material` for both policies.
+Model of `chess-engine/src/lib.rs`: `ThreeFold`, `BoardList`, `search_with`, `alphabeta`, `eval`,
+`eval_endgame`, `score_pieces`, `insuffient_material` for both policies.  The field `Engine::positional`
+is the leading argument `pos : Bool` of `eval`, `alphabeta`, …, `search` (`Engine::default()`, the shipped
+configuration, is `pos = false`).
 
 The timeout is the `Timeout` trait seen as a monotone poll counter: poll number `i` (0-based)
 answers `i ≥ k`; `St.polls` counts the polls made so far.  Recursion: the deepening loop takes
@@ -15,7 +16,8 @@ import ChessVerif.Gen.EngineConsts
 namespace Chess.Engine
 open Chess
 open Chess.Gen.EngineConsts (queenValue rookValue bishopValue knightValue pawnValue limitBlackAhead limitWhiteAhead
-  distWeight edgeWeight mobilityWeight edgeMix)
+  distWeight edgeWeight mobilityWeight edgeMix limitEqualBlack limitEqualWhite transposeIdx
+  knightMapRaw pawnMapRaw queenMapRaw bishopMapRaw rookMapRaw kingEarlyMapRaw kingEndMapRaw)
 
 /-- `ThreeFold`: `HashMap<Board, u8>` keyed by `Board`'s `Eq`, hashed by `zobrist()`; modelled as an
 association list (sound when equal boards hash equal: C04) with saturating `u8` counts -/
@@ -102,8 +104,38 @@ def evalEndgame (b : Board) (better : Color) : Int :=
   let dist := Lookup.distance bk wk
   ((dist * dist * distWeight + distFromEdge wk * edgeWeight + kingMoves * mobilityWeight : Nat) : Int)
 
-/-- `Engine::eval` with `positional = false` (the caller increments `moves_evaluated`) -/
-def eval (b : Board) : Score :=
+/-- `MAP[pos]` where `MAP = transpose(raw)` in the source: `transpose(raw)[i] = raw[transposeIdx i]` -/
+def mapAt (raw : Array Int) (s : Sq) : Int := raw.getD (transposeIdx s.val) 0
+
+/-- `for sq in bb { acc += i32::from(MAP[sq]) }` started from `0` -/
+def mapSum (raw : Array Int) (bb : BB) : Int := (BB.toList bb).foldl (fun acc s => acc + mapAt raw s) 0
+
+/-- the `position_score` of `Engine::score_pieces` when `positional`.  For Black the source reads
+`my_pieces & board[Piece::Rook].flip_ranks()`, where the method call binds tighter than `&`: the squares of Black's
+men (of any kind) that lie on the rank-flipped image of ALL rooks (both colours); likewise bishops and pawns.
+That is the code that exists, and it is what is modelled. -/
+def posScore (b : Board) (c : Color) : Int :=
+  let mine := b.raw.color c
+  mapSum queenMapRaw (mine &&& b.raw.queen) + mapSum knightMapRaw (mine &&& b.raw.knight) +
+  (match c with
+   | .white =>
+     mapSum rookMapRaw (mine &&& b.raw.rook) + mapSum bishopMapRaw (mine &&& b.raw.bishop) +
+     mapSum pawnMapRaw (mine &&& b.raw.pawn)
+   | .black =>
+     mapSum rookMapRaw (mine &&& BB.flipRanks b.raw.rook) + mapSum bishopMapRaw (mine &&& BB.flipRanks b.raw.bishop) +
+     mapSum pawnMapRaw (mine &&& BB.flipRanks b.raw.pawn))
+
+/-- `Engine::score_pieces`: material, plus `position_score` when `positional` -/
+def scorePiecesP (pos : Bool) (b : Board) (c : Color) : Int :=
+  if pos then scorePieces b c + posScore b c else scorePieces b c
+
+/-- the `king_pos_score` of `Engine::eval` when `positional` -/
+def kingPosScore (b : Board) (isEndgame : Bool) : Int :=
+  if isEndgame then mapAt kingEndMapRaw (b.kingSq .white) - mapAt kingEndMapRaw (b.kingSq .black).flipRank
+  else mapAt kingEarlyMapRaw (b.kingSq .white) - mapAt kingEarlyMapRaw (b.kingSq .black).flipRank
+
+/-- `Engine::eval` with `positional = false`, as a definition of its own: `eval false` is this (`eval_false`) -/
+def evalMaterial (b : Board) : Score :=
   if b.half ≥ 100 then .raw 0 else
   let w := scorePieces b .white
   let k := scorePieces b .black
@@ -113,6 +145,32 @@ def eval (b : Board) : Score :=
     else if diff = 0 then (0, 0)
     else (if w < limitWhiteAhead then (0, evalEndgame b .white) else (0, 0))
   .raw ((w + we) - (k + be))
+
+/-- `Engine::eval` (the caller increments `moves_evaluated`); `pos` is `self.positional`.  With `positional` the
+limits compare `score_pieces` INCLUDING the positional part, and the `Equal` arm decides `is_endgame`. -/
+def eval (pos : Bool) (b : Board) : Score :=
+  if b.half ≥ 100 then .raw 0 else
+  let w := scorePiecesP pos b .white
+  let k := scorePiecesP pos b .black
+  let diff := w - k
+  let (we, be, isEndgame) : Int × Int × Bool :=
+    if diff < 0 then (if k < limitBlackAhead then (evalEndgame b .black, 0, true) else (0, 0, false))
+    else if diff = 0 then (0, 0, decide (k < limitEqualBlack) && decide (w < limitEqualWhite))
+    else (if w < limitWhiteAhead then (0, evalEndgame b .white, true) else (0, 0, false))
+  let base := (w + we) - (k + be)
+  .raw (if pos then base + kingPosScore b isEndgame else base)
+
+/-- with `positional = false` the evaluation is the material-only one -/
+theorem eval_false (b : Board) : eval false b = evalMaterial b := by
+  unfold eval evalMaterial scorePiecesP
+  simp only [Bool.false_eq_true, if_false]
+  split
+  · rfl
+  · split
+    · split <;> rfl
+    · split
+      · rfl
+      · split <;> rfl
 
 /-- `Engine::insuffient_material` -/
 def insufficientMaterial (b : Board) : Bool :=
@@ -124,7 +182,7 @@ def insufficientMaterial (b : Board) : Bool :=
 mutual
 /-- `Engine::alphabeta::<P>(mv, args)` where `P::COLOR` is the side to move after `mv`.
 `fuel` bounds the recursion depth (see the file header). -/
-def alphabeta (k : Nat) : Nat → Board → Move → (rem cur : Nat) → (alpha beta : Score) → BoardList → St → Score × St
+def alphabeta (pos : Bool) (k : Nat) : Nat → Board → Move → (rem cur : Nat) → (alpha beta : Score) → BoardList → St → Score × St
   | 0, _, _, _, _, _, _, _, st => (.raw 0, st)        -- out of fuel: unreachable with `fuel ≥ rem + 33`
   | fuel + 1, old, mv, rem, cur, alpha, beta, list, st =>
     let board := old.moveUnchecked mv
@@ -145,11 +203,11 @@ def alphabeta (k : Nat) : Nat → Board → Move → (rem cur : Nat) → (alpha 
           let m := moves.setMask (board.raw.color pc.flip)
           (m.isEmpty, m)
         else (rem == 0, moves)
-      if isComplete then (eval board, { st with evals := st.evals + 1 })
-      else children k fuel board pc (rem - 1) (cur + 1) list 5000 moves (worst pc) alpha beta st
+      if isComplete then (eval pos board, { st with evals := st.evals + 1 })
+      else children pos k fuel board pc (rem - 1) (cur + 1) list 5000 moves (worst pc) alpha beta st
 
 /-- the `for mv in moves` loop of `alphabeta` -/
-def children (k : Nat) : Nat → Board → Color → (rem cur : Nat) → BoardList → Nat → MoveGen →
+def children (pos : Bool) (k : Nat) : Nat → Board → Color → (rem cur : Nat) → BoardList → Nat → MoveGen →
     (score alpha beta : Score) → St → Score × St
   | _, _, _, _, _, _, 0, _, score, _, _, st => (score, st)
   | fuel, board, pc, rem, cur, list, n + 1, moves, score, alpha, beta, st =>
@@ -158,11 +216,11 @@ def children (k : Nat) : Nat → Board → Color → (rem cur : Nat) → BoardLi
     | (some mv, moves') =>
       let (done, st) := poll k st
       if done then (score, st) else
-      let (new, st) := alphabeta k fuel board mv rem cur alpha beta list st
+      let (new, st) := alphabeta pos k fuel board mv rem cur alpha beta list st
       let score := if isBetter pc score new then new else score
       let (alpha, beta) := updateCutoff pc alpha beta score
       if Score.le beta alpha then (score, st)
-      else children k fuel board pc rem cur list n moves' score alpha beta st
+      else children pos k fuel board pc rem cur list n moves' score alpha beta st
 end
 
 /-- state of one deepening pass at the root -/
@@ -173,9 +231,9 @@ structure Pass where
   beta : Score
 
 /-- one root move: `alphabeta`, poll, maybe improve; returns `none` when the poll said stop -/
-def rootMove (k : Nat) (board : Board) (pc : Color) (depth : Nat) (tf : ThreeFold) (mv : Move)
+def rootMove (pos : Bool) (k : Nat) (board : Board) (pc : Color) (depth : Nat) (tf : ThreeFold) (mv : Move)
     (p : Pass) (st : St) : Option Pass × St :=
-  let (new, st) := alphabeta k (depth + 40) board mv depth 1 p.alpha p.beta (BoardList.new board tf) st
+  let (new, st) := alphabeta pos k (depth + 40) board mv depth 1 p.alpha p.beta (BoardList.new board tf) st
   let (done, st) := poll k st
   if done then (none, st) else
   let (score, best) := if isBetter pc p.score new then (new, some mv) else (p.score, p.best)
@@ -183,16 +241,16 @@ def rootMove (k : Nat) (board : Board) (pc : Color) (depth : Nat) (tf : ThreeFol
   (some ⟨score, best, alpha, beta⟩, st)
 
 /-- a `for mv in &mut moves` loop at the root: returns the iterator as left behind -/
-def rootLoop (k : Nat) (board : Board) (pc : Color) (depth : Nat) (tf : ThreeFold) :
+def rootLoop (pos : Bool) (k : Nat) (board : Board) (pc : Color) (depth : Nat) (tf : ThreeFold) :
     Nat → MoveGen → Pass → St → Pass × MoveGen × St
   | 0, g, p, st => (p, g, st)
   | n + 1, g, p, st =>
     match g.next with
     | (none, g') => (p, g', st)
     | (some mv, g') =>
-      match rootMove k board pc depth tf mv p st with
+      match rootMove pos k board pc depth tf mv p st with
       | (none, st) => (p, g', st)         -- `break`
-      | (some p', st) => rootLoop k board pc depth tf n g' p' st
+      | (some p', st) => rootLoop pos k board pc depth tf n g' p' st
 
 structure Result where
   move : Option Move
@@ -204,7 +262,7 @@ structure Result where
 
 /-- the `loop` of `search_with::<P>`; `passes` is fuel (each pass polls at least once, so
 `k + 2` passes suffice) -/
-def deepen (k : Nat) (board : Board) (pc : Color) (tf : ThreeFold) :
+def deepen (pos : Bool) (k : Nat) (board : Board) (pc : Color) (tf : ThreeFold) :
     Nat → (depth : Nat) → (bestMv : Option Move) → (bestScore : Score) → (maxDepth : Nat) → St → Result
   | 0, _, bestMv, bestScore, maxDepth, st => ⟨bestMv, bestScore, maxDepth, st.evals, st.polls⟩
   | passes + 1, depth, bestMv, bestScore, maxDepth, st =>
@@ -215,26 +273,26 @@ def deepen (k : Nat) (board : Board) (pc : Color) (tf : ThreeFold) :
       match bestMv with
       | some mv =>
         let moves := (moves.removeMove mv).1
-        match rootMove k board pc depth tf mv p0 st with
+        match rootMove pos k board pc depth tf mv p0 st with
         | (none, st) => (true, p0, moves, st)
         | (some p, st) => (false, p, moves, st)
       | none => (false, p0, moves, st)
     if stop then ⟨bestMv, bestScore, maxDepth, st.evals, st.polls⟩ else
     -- captures first, then everything else; a `break` in the first loop still runs the second
     let moves := moves.setMask (board.raw.color pc.flip)
-    let (p2, moves, st) := rootLoop k board pc depth tf 5000 moves p1 st
+    let (p2, moves, st) := rootLoop pos k board pc depth tf 5000 moves p1 st
     let moves := moves.setMask BB.full
-    let (p3, _, st) := rootLoop k board pc depth tf 5000 moves p2 st
+    let (p3, _, st) := rootLoop pos k board pc depth tf 5000 moves p2 st
     let (done, st) := poll k st
     if done then ⟨bestMv, bestScore, maxDepth, st.evals, st.polls⟩ else
     let depth' := if depth + 1 ≥ 65535 then 65535 else depth + 1
     match p3.score with
     | .blackMateIn _ | .whiteMateIn _ => ⟨p3.best, p3.score, depth, st.evals, st.polls⟩
-    | _ => deepen k board pc tf passes depth' p3.best p3.score depth st
+    | _ => deepen pos k board pc tf passes depth' p3.best p3.score depth st
 
-/-- `Engine::search(board, three_fold, timeout)` with a timeout that fires at poll `k`;
+/-- `Engine::search(board, three_fold, timeout)` of an engine with `positional = pos`, with a timeout that fires at poll `k`;
 `prevMaxDepth` is the `max_depth` field left by an earlier search (it is only written, never reset) -/
-def search (board : Board) (tf : ThreeFold) (k : Nat) (prevMaxDepth : Nat := 0) : Result :=
-  deepen k board board.turn tf (k + 2) 0 none (worst board.turn) prevMaxDepth ⟨0, 0⟩
+def search (pos : Bool) (board : Board) (tf : ThreeFold) (k : Nat) (prevMaxDepth : Nat := 0) : Result :=
+  deepen pos k board board.turn tf (k + 2) 0 none (worst board.turn) prevMaxDepth ⟨0, 0⟩
 
 end Chess.Engine
